@@ -57,8 +57,9 @@ def r10_1(ctx, prog, crate):
                 return "forward"
             return None
         seqs = call_sequences(b, Explorer(b).run(), tag)
-        got = sorted(s for (s, r) in seqs if r == "return")
-        exp = sorted([("try_current", "forward"), ("try_current", want, "forward")])
+        # order-insensitive: tallying before or after forwarding gives the same tally and the same request
+        got = sorted(tuple(sorted(s)) for (s, r) in seqs if r == "return")
+        exp = sorted([tuple(sorted(("try_current", "forward"))), tuple(sorted(("try_current", want, "forward")))])
         ctx.check(got == exp, "R10.1", [m, "tally-shape"],
                   "call shapes of `%s` are %s, expected %s (exactly one `%s` iff the thread tally exists)" % (m, got, exp, want),
                   b.where(0))
